@@ -207,15 +207,19 @@ def run_check(pid, tier, seed=0):
                 for r, v, path in to_replay:
                     unconfirmed.append((r, v, path, 'replay build failed'))
             else:
-                for r, v, path in to_replay:
+                # replay in batches (one process per 50 vectors)
+                outs = {}
+                for i in range(0, len(to_replay), 50):
+                    batch = to_replay[i:i + 50]
                     try:
-                        rc, out, err = sh([rexe, path], timeout=120)
-                        res = json.loads(out.strip().splitlines()[-1]) if out.strip() else {'status': 'crash', 'panic': err[-300:]}
-                    except subprocess.TimeoutExpired:
-                        res = {'status': 'timeout'}
+                        rc, out, err = sh([rexe] + [p for _, _, p in batch], timeout=300)
+                        rows = [json.loads(l) for l in out.strip().splitlines() if l.startswith('{')]
                     except Exception as e:
-                        res = {'status': 'crash', 'panic': str(e)}
-                    ok = False
+                        rows = []
+                    for j, (r, v, path) in enumerate(batch):
+                        outs[path] = rows[j] if j < len(rows) else {'status': 'crash'}
+                for r, v, path in to_replay:
+                    res = outs[path]
                     if v['label'] == 'unexpected-panic':
                         ok = res.get('status') == 'panic'
                     else:
